@@ -146,13 +146,13 @@ def check_snapshot(chk, cfg, snap, lits, wlits, K, rng):
                            dy(tq), dy(tw)))
 
 
-def eval_shards(chk, name, lits, chkfn, size):
+def eval_shards(chk, name, lits, chkfn, size, typ="list _"):
     hdr = (common.COQ_HEADER + "From Coq Require Import Reals.\n"
            "From NessaiV Require Import Lib.Enclose Model.C03_Meta Run.C03_run.\n")
     shards = [lits[i:i + size] for i in range(0, len(lits), size)]
 
     def one(k):
-        txt = hdr + f"Definition cs : list _ := {cL(shards[k])}.\nEval vm_compute in (mism {chkfn} cs).\n"
+        txt = hdr + f"Definition cs : {typ} := {cL(shards[k])}.\nEval vm_compute in (mism {chkfn} cs).\n"
         ok, evals, err = chk.coq_run(f"{name}_{k}", txt, timeout=900)
         if not ok or len(evals) != 1:
             return None, f"shard {name}_{k}: {err[-500:]}"
@@ -205,11 +205,11 @@ def run(chk):
             s = res["snaps"][-1]
             chk.sample({"config": cfg, "where": s["where"], "counts": s["counts"], "weights": s["weights"],
                         "row": s["stores"][0]["rows"][0]})
-    bad, err = eval_shards(chk, "rows", lits, "chk_row", 150)
+    bad, err = eval_shards(chk, "rows", lits, "chk_row", 150, "list rowcase")
     chk.oblige(f"correspondence: stored logQ within tolerance of the enclosure of ln(sum_j (c_j/total) exp(log_q_j)) and "
                f"logW of logU - logQ ({len(lits)} rows of real runs, proved per row inside Coq)", "correspondence",
                bad == [], err or "rows outside the enclosure: " + "; ".join(lits[i] for i in (bad or [])[:2]))
-    bad, err = eval_shards(chk, "weights", wlits, "chk_weights", 200)
+    bad, err = eval_shards(chk, "weights", wlits, "chk_weights", 200, "list (list nat * list (Z * Z) * (Z * Z))")
     chk.oblige(f"correspondence: proposal weights = counts/total ({len(wlits)} snapshots)", "correspondence",
                bad == [], err or "bad: " + "; ".join(wlits[i] for i in (bad or [])[:2]))
     chk.count("rows_checked_in_coq", len(lits))
